@@ -21,6 +21,7 @@ import (
 	"github.com/bufbuild/buf/private/bufpkg/bufplugin"
 	"github.com/bufbuild/buf/private/pkg/protoencoding"
 	"github.com/bufbuild/buf/private/pkg/storage"
+	"github.com/bufbuild/buf/private/pkg/storage/storagemem"
 	"github.com/bufbuild/buf/private/pkg/storage/storageos"
 	"github.com/bufbuild/buf/private/pkg/thread"
 	"github.com/bufbuild/buf/private/pkg/verifhook"
@@ -193,6 +194,25 @@ func c02Do(c *core.C, idx int, race bool) {
 		}
 		run.WriteTree(ws3, files)
 	}
+	// a fourth copy: the same files as ONE v1beta1 module whose build.roots are the module directories (buf keeps the
+	// roots of such a module in a map, so the order in which its storage enumerates them differs from run to run);
+	// every file badly formatted, so that `format -d` has one diff per file to order
+	ws4 := filepath.Join(base, "ws4")
+	{
+		files := map[string]string{}
+		var roots []string
+		for _, m := range s.Modules {
+			roots = append(roots, m.Dir)
+		}
+		sort.Strings(roots)
+		for p, text := range v.R.Flat() {
+			if strings.HasSuffix(p, ".proto") {
+				files[p] = strings.ReplaceAll(text, " = ", "  =   ")
+			}
+		}
+		files["buf.yaml"] = "version: v1beta1\nbuild:\n  roots:\n" + yamlList("    ", roots)
+		run.WriteTree(ws4, files)
+	}
 	env := run.BufEnv(filepath.Join(c.Tmp, "home"), nil)
 	// some type names for --type
 	var types []string
@@ -261,6 +281,9 @@ func c02Do(c *core.C, idx int, race bool) {
 		{"format -d", []string{"format", "-d"}, wsDir},
 		{"format", []string{"format"}, wsDir},
 		{"format one-broken-file", []string{"format", "-d"}, ws3},
+		{"format -d v1beta1-roots", []string{"format", "-d"}, ws4},
+		{"build v1beta1-roots", []string{"build", "-o", "-#format=binpb"}, ws4},
+		{"ls-files v1beta1-roots", []string{"ls-files"}, ws4},
 		{"ls-files", []string{"ls-files"}, wsDir},
 		{"ls-files --include-imports", []string{"ls-files", "--include-imports", "--format", "json"}, wsDir},
 		{"dep graph", []string{"dep", "graph"}, wsDir},
@@ -275,7 +298,7 @@ func c02Do(c *core.C, idx int, race bool) {
 		var sel []c02Cmd
 		for _, cmd := range cmds {
 			switch cmd.name {
-			case "build binpb", "build --type", "build --type related", "lint json", "lint junit", "breaking", "format", "format one-broken-file", "ls-files --include-imports", "dep graph json":
+			case "build binpb", "build --type", "build --type related", "lint json", "lint junit", "breaking", "format", "format one-broken-file", "format -d v1beta1-roots", "ls-files --include-imports", "dep graph json":
 				sel = append(sel, cmd)
 			}
 		}
@@ -468,7 +491,7 @@ func firstDiff(a1, b1, a2, b2 []byte) string {
 // the same serialized image and the same digests.
 func c02Library(c *core.C, idx int, wsDir string) {
 	ctx := context.Background()
-	var baseImage []byte
+	var baseImage, baseDiff []byte
 	var baseDigests string
 	for r := 0; r < c.Pick(4, 10); r++ {
 		bucket, err := storageos.NewProvider(storageos.ProviderWithSymlinks()).NewReadWriteBucket(wsDir, storageos.ReadWriteBucketWithSymlinksIfSupported())
@@ -513,11 +536,25 @@ func c02Library(c *core.C, idx int, wsDir string) {
 			}
 			ds = append(ds, m.OpaqueID()+"="+d5.String()+"/"+d4.String())
 		}
+		// the textual diff of two buckets (what `format -d` prints) for every enumeration order of both
+		two := shuffleBucket{ReadBucket: c02Edited(ctx, bucket), seed: c.Seed*37 + uint64(idx*1000+r)}
+		diff, err := storage.DiffBytes(ctx, rb, two, storage.DiffWithSuppressTimestamps())
+		if err != nil {
+			c.Violation("library-failed", fmt.Sprintf("case=%d", idx), "diff: "+err.Error(), nil)
+			return
+		}
 		c.Eval(1)
 		if r == 0 {
-			baseImage, baseDigests = data, strings.Join(ds, "\n")
+			baseImage, baseDigests, baseDiff = data, strings.Join(ds, "\n"), diff
+			if len(diff) == 0 {
+				c.Violation("harness-empty-diff", fmt.Sprintf("case=%d", idx), "the edited bucket does not differ", nil)
+			}
 			continue
 		}
+		if !bytes.Equal(diff, baseDiff) {
+			c.Violation("walk-order-dependence", fmt.Sprintf("case=%d what=diff", idx), "storage.DiffBytes output differs when the storage enumerates files in another order: "+firstDiff(baseDiff, diff, nil, nil), nil)
+		}
+		c.Count("walk_order_diff_comparisons", 1)
 		if !bytes.Equal(data, baseImage) {
 			c.Violation("walk-order-dependence", fmt.Sprintf("case=%d what=image", idx), "serialized image differs when the storage enumerates files in another order", nil)
 		}
@@ -529,13 +566,29 @@ func c02Library(c *core.C, idx int, wsDir string) {
 	thread.SetParallelism(runtime.GOMAXPROCS(0))
 }
 
+// c02Edited is an in-memory copy of the .proto files of b, each with one more line.
+func c02Edited(ctx context.Context, b storage.ReadBucket) storage.ReadBucket {
+	m := map[string][]byte{}
+	_ = b.Walk(ctx, "", func(oi storage.ObjectInfo) error {
+		if strings.HasSuffix(oi.Path(), ".proto") {
+			data, err := storage.ReadPath(ctx, b, oi.Path())
+			if err == nil {
+				m[oi.Path()] = append(data, []byte("// edited "+oi.Path()+"\n")...)
+			}
+		}
+		return nil
+	})
+	rb, _ := storagemem.NewReadBucket(m)
+	return rb
+}
+
 func init() {
 	core.Register(&core.Check{
 		ID:    "C02",
 		Level: "exploration",
-		Rule: "per PRNG-generated workspace (3–5 modules incl. one whose packages form two import cycles sharing the first hop, lint plants, unformatted files, an edited copy for breaking): 22 commands " +
-			"(build binpb/json/txtpb/yaml, build --path, build --type (random and related: nested+enclosing, method+service), lint json/text/junit/github-actions, breaking junit, breaking, format, format -d, format of a tree with one unparsable file, ls-files ±imports, dep graph dot/json, config ls-lint-rules/ls-breaking-rules) each executed 4 (quick) / 10 (thorough) times under GOMAXPROCS∈{1,2,4,16} × parallelism∈{1,2,3,16} × seeded yields at job dispatch × permuted flag order, " +
-			"plus permuted modules/rule ids in buf.yaml and shuffled storage walk order at library level; repeated in the -race build. A (workspace, command) pair is counted non-trivial only if ≥2 distinct job-completion orders were actually observed through the thread hook trace",
+		Rule: "per PRNG-generated workspace (3–5 modules incl. one whose packages form two import cycles sharing the first hop, lint plants, unformatted files, an edited copy for breaking): 25 commands " +
+			"(build binpb/json/txtpb/yaml, build --path, build --type (random and related: nested+enclosing, method+service), lint json/text/junit/github-actions, breaking junit, breaking, format, format -d, format of a tree with one unparsable file, format -d / build / ls-files of the same files as one v1beta1 module with several build.roots, ls-files ±imports, dep graph dot/json, config ls-lint-rules/ls-breaking-rules) each executed 4 (quick) / 10 (thorough) times under GOMAXPROCS∈{1,2,4,16} × parallelism∈{1,2,3,16} × seeded yields at job dispatch × permuted flag order, " +
+			"plus permuted modules/rule ids in buf.yaml and shuffled storage walk order at library level (image bytes, b4/b5 digests, storage.DiffBytes of two shuffled buckets); repeated in the -race build. A (workspace, command) pair is counted non-trivial only if ≥2 distinct job-completion orders were actually observed through the thread hook trace",
 		Assumptions: []string{
 			"only the mtime stamps in the ---/+++ headers that diff(1) prints for `format -d` are masked; they are a function of wall-clock time, which the property does not quantify over",
 			"schedules inside protocompile's own worker pool are perturbed only through GOMAXPROCS and parallelism; equality across different builds of buf is not observable with one binary",
@@ -555,6 +608,6 @@ func init() {
 			return 5
 		},
 		RunRace:  func(c *core.C, idx int) { c02Do(c, idx, true) },
-		Required: []string{"comparisons", "commands_with_distinct_job_orders", "listing_order_comparisons", "walk_order_comparisons"},
+		Required: []string{"comparisons", "commands_with_distinct_job_orders", "listing_order_comparisons", "walk_order_comparisons", "walk_order_diff_comparisons"},
 	})
 }
